@@ -4,6 +4,7 @@
 package os
 
 import (
+	"io"
 	"io/fs"
 	ros "os"
 	"path/filepath"
@@ -58,9 +59,12 @@ func IsExist(err error) bool            { return ros.IsExist(err) }
 func IsNotExist(err error) bool         { return ros.IsNotExist(err) }
 func IsPermission(err error) bool       { return ros.IsPermission(err) }
 func IsTimeout(err error) bool          { return ros.IsTimeout(err) }
-func Getenv(k string) string            { return ros.Getenv(k) }
-func LookupEnv(k string) (string, bool) { return ros.LookupEnv(k) }
-func Getpid() int                       { return 1 }
+// The environment of the worker process is not part of a run: every
+// variable is unset.
+func Getenv(k string) string            { return "" }
+func LookupEnv(k string) (string, bool) { return "", false }
+func Getpid() int                       { return simrt.Pid() }
+func Getppid() int                      { return 1 }
 func Exit(c int)                        { ros.Exit(c) }
 func TempDir() string                   { return "/tmp" }
 func IsPathSeparator(c uint8) bool      { return ros.IsPathSeparator(c) }
@@ -71,12 +75,82 @@ func Hostname() (string, error)         { return "sim", nil }
 type File struct {
 	st   *simrt.FileState
 	name string
+	// directory handle (Open of a directory): entries are handed out in
+	// directory order, a permutation the simulator chooses
+	dir       bool
+	dirClosed bool
+	dirEnts   []FileInfo
+	dirRead   bool
+}
+
+func (f *File) isDirErr(op string) error {
+	return &PathError{Op: op, Path: f.name, Err: syscall.EISDIR}
+}
+
+// Readdir returns up to n entries (all that are left when n <= 0) in
+// directory order.
+func (f *File) Readdir(n int) ([]FileInfo, error) {
+	if f == nil {
+		return nil, ErrInvalid
+	}
+	if !f.dir {
+		return nil, &PathError{Op: "readdirent", Path: f.name, Err: syscall.ENOTDIR}
+	}
+	if f.dirClosed {
+		return nil, &PathError{Op: "readdirent", Path: f.name, Err: ErrClosed}
+	}
+	if !f.dirRead {
+		seed := simrt.DirPermSeed()
+		fis, err := ReadDirInfos(f.name)
+		if err != nil {
+			return nil, err
+		}
+		for i := len(fis) - 1; i > 0; i-- {
+			seed = simrt.Mix64(seed + uint64(i))
+			j := int(seed % uint64(i+1))
+			fis[i], fis[j] = fis[j], fis[i]
+		}
+		f.dirEnts, f.dirRead = fis, true
+	}
+	if n <= 0 {
+		res := f.dirEnts
+		f.dirEnts = nil
+		return res, nil
+	}
+	if len(f.dirEnts) == 0 {
+		return nil, io.EOF
+	}
+	if n > len(f.dirEnts) {
+		n = len(f.dirEnts)
+	}
+	res := f.dirEnts[:n]
+	f.dirEnts = f.dirEnts[n:]
+	return res, nil
+}
+
+func (f *File) Readdirnames(n int) ([]string, error) {
+	fis, err := f.Readdir(n)
+	var res []string
+	for _, fi := range fis {
+		res = append(res, fi.Name())
+	}
+	return res, err
+}
+
+func (f *File) ReadDir(n int) ([]DirEntry, error) {
+	fis, err := f.Readdir(n)
+	var res []DirEntry
+	for _, fi := range fis {
+		res = append(res, dirEntry{fi})
+	}
+	return res, err
 }
 
 type fileInfo struct {
 	name  string
 	size  int64
 	isDir bool
+	mtime int64 // ns on the simulated clock
 }
 
 func (fi *fileInfo) Name() string { return fi.name }
@@ -87,13 +161,16 @@ func (fi *fileInfo) Mode() FileMode {
 	}
 	return 0644
 }
-func (fi *fileInfo) ModTime() time.Time { return time.Unix(0, 0) }
+func (fi *fileInfo) ModTime() time.Time {
+	g := simrt.MTimeGranNS()
+	return time.Unix(0, (simrt.EpochNS+fi.mtime)/g*g).UTC()
+}
 func (fi *fileInfo) IsDir() bool        { return fi.isDir }
 func (fi *fileInfo) Sys() interface{}   { return nil }
 
 // MkFileInfo is used by the ioutil shim.
 func MkFileInfo(name string, size int64, isDir bool) FileInfo {
-	return &fileInfo{name, size, isDir}
+	return &fileInfo{name, size, isDir, 0}
 }
 
 func refused(op, p string) error { return &PathError{Op: op, Path: p, Err: simrt.Refused} }
@@ -118,6 +195,12 @@ func OpenFile(name string, flag int, perm FileMode) (*File, error) {
 		err := &PathError{Op: "open", Path: name, Err: en}
 		simrt.Record(t, c, flag&(O_CREATE|O_TRUNC) != 0, 0, 0, err)
 		return nil, err
+	}
+	if flag&(O_WRONLY|O_RDWR|O_CREATE) == 0 {
+		if fi, serr := be.Stat(name); serr == nil && fi.IsDir {
+			simrt.Record(t, c, false, 0, 0, nil)
+			return &File{name: name, dir: true}, nil
+		}
 	}
 	h, err := be.OpenFile(name, flag, perm)
 	var ino uint64
@@ -228,7 +311,7 @@ func Stat(name string) (FileInfo, error) {
 	if err != nil {
 		return nil, err
 	}
-	return &fileInfo{fi.Name, fi.Size, fi.IsDir}, nil
+	return &fileInfo{fi.Name, fi.Size, fi.IsDir, fi.MTime}, nil
 }
 
 func Lstat(name string) (FileInfo, error) { return Stat(name) }
@@ -287,7 +370,7 @@ func ReadDirInfos(name string) ([]FileInfo, error) {
 	}
 	var res []FileInfo
 	for _, e := range es {
-		res = append(res, &fileInfo{e.Name, e.Size, e.IsDir})
+		res = append(res, &fileInfo{e.Name, e.Size, e.IsDir, e.MTime})
 	}
 	return res, nil
 }
@@ -399,6 +482,9 @@ func (f *File) Write(b []byte) (int, error) {
 	if f == nil {
 		return 0, ErrInvalid
 	}
+	if f.dir {
+		return 0, f.isDirErr("write")
+	}
 	c, t, ok := f.local("write")
 	if !ok {
 		return 0, refused("write", f.name)
@@ -434,6 +520,9 @@ func (f *File) Read(b []byte) (int, error) {
 	if f == nil {
 		return 0, ErrInvalid
 	}
+	if f.dir {
+		return 0, f.isDirErr("read")
+	}
 	c, t, ok := f.local("read")
 	if !ok {
 		return 0, refused("read", f.name)
@@ -446,6 +535,8 @@ func (f *File) Read(b []byte) (int, error) {
 		err = en
 	} else {
 		n, err = f.st.H.Read(b)
+		simrt.ReadCalls++
+		simrt.ReadBytes += int64(n)
 	}
 	err = f.wrap("read", err)
 	simrt.Record(t, c, false, f.ino(), n, err)
@@ -455,6 +546,9 @@ func (f *File) Read(b []byte) (int, error) {
 func (f *File) ReadAt(b []byte, off int64) (int, error) {
 	if f == nil {
 		return 0, ErrInvalid
+	}
+	if f.dir {
+		return 0, f.isDirErr("read")
 	}
 	c, t, ok := f.local("readat")
 	if !ok {
@@ -472,6 +566,8 @@ func (f *File) ReadAt(b []byte, off int64) (int, error) {
 		err = en
 	} else {
 		n, err = f.st.H.ReadAt(b, off)
+		simrt.ReadCalls++
+		simrt.ReadBytes += int64(n)
 	}
 	err = f.wrap("read", err)
 	simrt.Record(t, c, false, f.ino(), n, err)
@@ -481,6 +577,9 @@ func (f *File) ReadAt(b []byte, off int64) (int, error) {
 func (f *File) Seek(off int64, whence int) (int64, error) {
 	if f == nil {
 		return 0, ErrInvalid
+	}
+	if f.dir {
+		return 0, nil
 	}
 	c, t, ok := f.local("seek")
 	if !ok {
@@ -502,6 +601,9 @@ func (f *File) Truncate(sz int64) error {
 	if f == nil {
 		return ErrInvalid
 	}
+	if f.dir {
+		return f.isDirErr("truncate")
+	}
 	c, t, ok := f.local("truncate")
 	if !ok {
 		return refused("truncate", f.name)
@@ -521,6 +623,9 @@ func (f *File) Sync() error {
 	if f == nil {
 		return ErrInvalid
 	}
+	if f.dir {
+		return nil
+	}
 	c, t, ok := f.local("sync")
 	if !ok {
 		return refused("sync", f.name)
@@ -537,6 +642,9 @@ func (f *File) Stat() (FileInfo, error) {
 	if f == nil {
 		return nil, ErrInvalid
 	}
+	if f.dir {
+		return &fileInfo{filepath.Base(f.name), 0, true, 0}, nil
+	}
 	c, t, ok := f.local("fstat")
 	if !ok {
 		return nil, refused("stat", f.name)
@@ -550,17 +658,28 @@ func (f *File) Stat() (FileInfo, error) {
 	} else {
 		sz, err = f.st.H.Size()
 	}
+	var mt int64
+	if err == nil {
+		mt = f.st.H.MTime()
+	}
 	err = f.wrap("stat", err)
 	simrt.Record(t, c, false, f.ino(), 0, err)
 	if err != nil {
 		return nil, err
 	}
-	return &fileInfo{filepath.Base(f.name), sz, false}, nil
+	return &fileInfo{filepath.Base(f.name), sz, false, mt}, nil
 }
 
 func (f *File) Close() error {
 	if f == nil {
 		return ErrInvalid
+	}
+	if f.dir {
+		if f.dirClosed {
+			return &PathError{Op: "close", Path: f.name, Err: ErrClosed}
+		}
+		f.dirClosed = true
+		return nil
 	}
 	c, t, ok := f.local("close")
 	if !ok {
